@@ -608,6 +608,17 @@ func vC05Oracle(c vC05Case, ref *vC05Ref, crashOp int, started bool, resume []st
 				return &vC05Verdict{"epoch", fmt.Sprintf("%s: message %s has leader epoch %d but the epoch cache %s says %d for its offset", stage, r.text, r.ep, vC05StateField(st, "ep"), at)}
 			}
 		}
+		// ... and names no epoch the log holds no message of: the workloads record epochs only by
+		// appending messages (an epoch starts at its first message), so after a reopen an entry that
+		// starts beyond the last message is an epoch without messages (what a crash between the epoch
+		// checkpoint and the message write leaves, and New must drop again)
+		if stage == "after reopen" {
+			for _, e := range eps {
+				if e[1] > last {
+					return &vC05Verdict{"epoch", fmt.Sprintf("%s: the epoch cache %s records leader epoch %d as starting at offset %d, but the log ends at offset %d: no message of that epoch exists", stage, vC05StateField(st, "ep"), e[0], e[1], last)}
+				}
+			}
+		}
 		return nil
 	}
 	b0, _ := get("bytes", 0)
